@@ -64,6 +64,7 @@ type pipeEnd struct {
 // pipe is a bidirectional in-memory stream. A gated pipe queues every Write as one packet until
 // the engine delivers it.
 type pipe struct {
+	link    int // hub engine: index of the link the stream belongs to
 	mtx     sync.Mutex
 	cond    *sync.Cond
 	gated   bool
@@ -181,6 +182,8 @@ type fakeML struct {
 	uuid, tpt     uint64
 	local, remote peer.ID
 	stub          bool // link to the third peer: nobody on the other end
+	// open, when set, is OpenMountedStream of this link (hub engine)
+	open func(ctx context.Context, f *fakeML, pid protocol.ID) (link.MountedStream, error)
 }
 
 func (f *fakeML) GetLinkUUID() uint64            { return f.uuid }
@@ -189,6 +192,9 @@ func (f *fakeML) GetRemoteTransportUUID() uint64 { return f.tpt + 1000 }
 func (f *fakeML) GetLocalPeer() peer.ID          { return f.local }
 func (f *fakeML) GetRemotePeer() peer.ID         { return f.remote }
 func (f *fakeML) OpenMountedStream(ctx context.Context, pid protocol.ID, o stream.OpenOpts) (link.MountedStream, error) {
+	if f.open != nil {
+		return f.open(ctx, f, pid)
+	}
 	return f.n.w.onOpen(ctx, f, pid)
 }
 
@@ -249,6 +255,15 @@ type dirSpec struct {
 }
 
 func (d dirSpec) String() string {
+	if len(d.pid) > 64 || len(d.ctx) > 64 {
+		sh := func(b []byte) string {
+			if len(b) <= 64 {
+				return fmt.Sprintf("%x", b)
+			}
+			return fmt.Sprintf("[%d bytes %x…%x]", len(b), b[:4], b[len(b)-4:])
+		}
+		return fmt.Sprintf("(pid=%s,ctx=%s,peer=%x,tpt=%d)", sh([]byte(d.pid)), sh(d.ctx), []byte(d.peer), d.tpt)
+	}
 	return fmt.Sprintf("(%q,%x,peer=%x,tpt=%d)", d.pid, d.ctx, []byte(d.peer), d.tpt)
 }
 
